@@ -283,6 +283,30 @@ def _correspond(ctx, rep, base, model_ok):
             if mm != impl:
                 rep.diverge("path.resolve (_resolve_path, symlink-free)", {"base": root, "path": p}, m, impl)
     rep.sample({"resolve_case": reqs[5], "model": model[5]})
+    # ---- the read path's second entry (`_get_arrow_path`): table-relative spellings AND true absolute paths
+    from datashard import create_table
+    from .. import tablekit
+    t = create_table(os.path.join(root, "tbl"), tablekit.schema())
+    troot = os.path.realpath(os.path.join(root, "tbl"))
+    dfm = t.file_manager.data_file_manager
+    apaths = list(paths[:: 3 if not ctx.thorough else 1])
+    parent = os.path.dirname(troot)
+    for tail in ["", "/data", "/data/x", "/x", "/../x", "/./data", "//data", "/data/../../x", "/metadata/..", "/data/../.."]:
+        apaths += [troot + tail, troot + "2" + tail, parent + tail, "/etc" + tail, "/" + tail.lstrip("/")]
+    apaths = list(dict.fromkeys(apaths))
+    reqs = [f"path.arrow {enc(troot)} {enc(p)}" for p in apaths]
+    model = driver.ask(reqs) if model_ok else [None] * len(reqs)
+    for p, m in zip(apaths, model):
+        try:
+            impl = "ok " + enc(dfm._get_arrow_path(p))
+        except ValueError:
+            impl = "raise"
+        rep.corr_cases += 1
+        if m is not None:
+            from ..util import dec
+            mm = m if m == "raise" else "ok " + enc(dec(m[3:]))
+            if mm != impl:
+                rep.diverge("path.arrow (_get_arrow_path, symlink-free)", {"base": troot, "path": p}, m, impl)
 
 
 def run(ctx, model_ok):
